@@ -158,8 +158,13 @@ type pristine struct {
 	saved   string // file holding the above for child processes
 }
 
+var scratchRoot string
+
 func harnessBug(f string, a ...any) {
 	fmt.Fprintf(os.Stderr, "HARNESS ERROR: "+f+"\n", a...)
+	if scratchRoot != "" {
+		os.RemoveAll(scratchRoot)
+	}
 	os.Exit(2)
 }
 
@@ -1006,7 +1011,14 @@ func (p *pristine) compare(a alteration, want, got Obs, mode string, leaked []st
 			}
 		case g != w:
 			changed = true
-			byAPI[apiOf(k)] = append(byAPI[apiOf(k)], fmt.Sprintf("%s: pristine %s, now %s", k, short(w, 300), short(g, 300)))
+			d := 0 // show both from (a little before) the first difference
+			for d < len(w) && d < len(g) && w[d] == g[d] {
+				d++
+			}
+			if d = d - 24; d < 0 || len(w) < 300 {
+				d = 0
+			}
+			byAPI[apiOf(k)] = append(byAPI[apiOf(k)], fmt.Sprintf("%s: pristine [%d:]%s, now [%d:]%s", k, d, short(w[d:], 300), d, short(g[d:], 300)))
 		}
 	}
 	for k := range got {
@@ -1349,6 +1361,11 @@ func main() {
 				n[s.Log+":"+p.regions[s.reg].Field]++
 			}
 			fmt.Printf("%s hash=%s sites=%d observations=%d+%d\n   %v\n", cf.Name, p.hash, len(p.sites), len(p.reads), len(p.getAt[nTx])+2, n)
+			for i, s := range p.sites {
+				if r := p.regions[s.reg]; i == 0 || p.sites[i-1].reg != s.reg {
+					fmt.Printf("   site %4d %s+%d %s tx=%d entry=%d\n", i, s.Log, s.off(), r.Field, r.Tx, r.Entry)
+				}
+			}
 			w := newWorker(p, filepath.Join(*dump, cf.Name, "timing"))
 			t0 := time.Now()
 			for i := 0; i < 20; i++ {
@@ -1370,7 +1387,7 @@ func main() {
 	}
 	ballast = make([]byte, 16<<20) // never touched: raises the heap goal a little (thousands of short-lived stores per second)
 	root := lib.Scratch("c09")
-	defer os.RemoveAll(root)
+	scratchRoot = root
 
 	if c.ReplayPath != "" {
 		var r replay
@@ -1388,6 +1405,7 @@ func main() {
 			c.Violate(v)
 		}
 		c.AddEvals(out.Evals)
+		os.RemoveAll(root)
 		c.Finish("replay of "+p.altString(r.Alt)+" index "+r.Index, false)
 	}
 
@@ -1440,14 +1458,20 @@ func main() {
 					skipped.Add(1)
 					return
 				}
-				w := <-workers
+				w := <-workers // (a site whose alterations were only partly run when the budget expired counts as not run)
 				defer func() { workers <- w }()
 				alts := p.singles(si)
 				if ph.pairs {
 					alts = p.pairs(si)
 				}
 				field := p.regions[p.sites[si].reg].Field
-				for _, a := range alts {
+				for n, a := range alts {
+					if c.Expired() {
+						if n > 0 {
+							skipped.Add(1)
+						}
+						return
+					}
 					var out outcome
 					if p.heavy(a) {
 						out = w.runChild(a, ph.mode)
@@ -1518,6 +1542,7 @@ func main() {
 			c.CapHit(fmt.Sprintf("ExportTx left its mutex locked in %d cases but only %d of 3 real follow-up calls blocked for %v", len(leaks), blocked, hangCap))
 		}
 	}
+	os.RemoveAll(root) // (Finish exits the process: deferred calls do not run)
 	c.Finish("every alteration (operators: 8 bit flips, 00, FF, ^b per byte; thorough: + every pair of bit flips less than 8 bytes apart) of every committed "+
 		"tx-log byte and every referenced value-log byte, per configuration; each followed by Open and the full read sweep (index rebuilt from the altered logs; "+
 		"thorough: also with the index persisted before the alteration); every observation must be an error or equal the pristine one. "+
